@@ -105,6 +105,8 @@ def run(tier):
 
     # batch independence via the TLC-emitted index maps + carried variables + energy round trip -----------------------------------------
     sel = [m for m in maps if m["nf"] >= 2] if maps else []
+    unstable = [0]
+    order_toggle = [0]
     for v in VARIANTS:
         for bm in (rng.sample(sel, min(len(sel), 3 if quick else 10)) if sel else []):
             nt, nx, nf = bm["nt"], bm["nx"], bm["nf"]
@@ -118,8 +120,15 @@ def run(tier):
                     for f in range(nf):
                         arr[t, x, f] = M[idx[bm["map"][t][x][f]]]
             ctx = {"variant": vname(v), "N": N, "shape": [nt, nx, nf]}
+            def layout(a):
+                # the same values in C order, or as a transposed view of data stored with the frequency as leading dimension (Fortran
+                # order: what xarray's lazy transpose of a (frequency, latitude, time) dataset hands over)
+                a = np.ascontiguousarray(a)
+                return a if ctx["memory_order"] == "C" else np.transpose(np.ascontiguousarray(np.transpose(a, (2, 1, 0))), (2, 1, 0))
+            order_toggle[0] += 1
+            ctx["memory_order"] = "F" if order_toggle[0] % 2 else "C"
             try:
-                Db = estimate_directional_distribution(arr[..., 0].copy(), arr[..., 1].copy(), arr[..., 2].copy(), arr[..., 3].copy(), d, method=v[0], **v[1])
+                Db = estimate_directional_distribution(layout(arr[..., 0]), layout(arr[..., 1]), layout(arr[..., 2]), layout(arr[..., 3]), d, method=v[0], **v[1])
                 D1 = estimate_directional_distribution(arr[0, 0, :, 0].copy(), arr[0, 0, :, 1].copy(), arr[0, 0, :, 2].copy(), arr[0, 0, :, 3].copy(), d, method=v[0], **v[1])
             except Exception as e:
                 chk.violation("raise:batch:%s:%s" % (vname(v), type(e).__name__), "estimator raised on a batch", dict(ctx, error=str(e)[:300]))
@@ -134,9 +143,18 @@ def run(tier):
                     for f in range(nf):
                         q = arr[t, x, f]
                         Ds = estimate_directional_distribution(q[0:1].copy(), q[1:2].copy(), q[2:3].copy(), q[3:4].copy(), d, method=v[0], **v[1])[0]
-                        if not np.allclose(Db[t, x, f], Ds, rtol=1e-10, atol=1e-13, equal_nan=True):
+                        # numba compiles one kernel per array layout (C / Fortran / 1-D), with fast-math: the last bits differ between
+                        # kernels, and for moments on which the solver does not converge the last bits decide the output. An element whose
+                        # own result changes visibly when its moments are perturbed by 1e-13 has no result to compare with.
+                        qp = q * (1.0 + 1e-13)
+                        Dp = estimate_directional_distribution(qp[0:1].copy(), qp[1:2].copy(), qp[2:3].copy(), qp[3:4].copy(), d, method=v[0], **v[1])[0]
+                        scale_ = max(float(np.nanmax(np.abs(Ds))), 1e-300) if np.any(np.isfinite(Ds)) else 1.0
+                        if not np.allclose(Dp, Ds, rtol=0, atol=1e-9 * scale_, equal_nan=True):
+                            unstable[0] += 1
+                            continue
+                        if not np.allclose(Db[t, x, f], Ds, rtol=0, atol=1e-7 * scale_, equal_nan=True):
                             bad = (t, x, f)
-            if bad is not None or not np.allclose(Db[0, 0], D1, rtol=1e-10, atol=1e-13, equal_nan=True):
+            if bad is not None:
                 chk.violation("batch-independence:%s" % vname(v), "an element of a batch does not get the result it gets alone",
                               dict(ctx, element=bad, moments=None if bad is None else arr[bad].tolist()))
     # a per-call solver configuration must not change what a later default call does (returned without raising, same result)
@@ -185,7 +203,14 @@ def run(tier):
                 continue
             evals += 2 * nt * nf
             for t in range(nt):
-                if not np.allclose(Db[t], alone[t], rtol=1e-10, atol=1e-13, equal_nan=True):
+                # (rows whose own result changes visibly under a 1e-13 perturbation of the moments are skipped: see above)
+                ap = arr[t:t + 1] * (1.0 + 1e-13)
+                pert = estimate_directional_distribution(ap[:, :, 0].copy(), ap[:, :, 1].copy(), ap[:, :, 2].copy(), ap[:, :, 3].copy(), d, method=v[0], **v[1])[0]
+                scale_ = max(float(np.nanmax(np.abs(alone[t]))), 1e-300) if np.any(np.isfinite(alone[t])) else 1.0
+                if not np.allclose(pert, alone[t], rtol=0, atol=1e-9 * scale_, equal_nan=True):
+                    unstable[0] += 1
+                    continue
+                if not np.allclose(Db[t], alone[t], rtol=0, atol=1e-7 * scale_, equal_nan=True):
                     chk.violation("batch-independence:neighbours:%s" % vname(v), "a member of a batch of similar spectra does not get the result it gets alone",
                                   dict(ctx, member=t, max_abs_diff=float(np.nanmax(np.abs(Db[t] - alone[t]))), peak=float(np.nanmax(alone[t]))))
                     break
@@ -236,6 +261,7 @@ def run(tier):
             if not (okgrid and oke):
                 chk.violation("grid-N:%s" % vname(v), "as_frequency_direction_spectrum(N=%d): not the uniform N-point direction grid / energy not conserved" % N,
                               {"N": N, "variant": vname(v), "n_directions": int(len(dd)), "e_back": s2.as_frequency_spectrum().e.values.tolist(), "e": s1.e.values.tolist()})
+    chk.set("batch_elements_skipped_because_their_own_result_is_chaotic_under_a_1e-13_perturbation", unstable[0])
     chk.set("evaluations", evals)
     chk.set("distinct_nontrivial", len(distinct))
     chk.assume("the specification decides the quantifier domain (rational lattice inside the open unit disc, incl. unrealisable quadruples), the abstract "
